@@ -29,6 +29,9 @@ func (g *deepcopyGen) GenerateType(c gengo.Context, named *types.Named) error {
 }
 
 func (g *deepcopyGen) generateType(c gengo.Context, named *types.Named) error {
+	// field of generic type is instantiated, methods should be generated once on the declared one
+	named = named.Origin()
+
 	if _, ok := g.processed[named]; ok {
 		return nil
 	}
